@@ -9,7 +9,7 @@
    returned list, [o_graph] the working graph afterwards, [o_status] 0 iff the loop ended normally
    (1 = fuel |E|+1 exhausted, 2 = the ValueError of min() on an empty list). *)
 From Coq Require Import List Arith Bool.
-From GV Require Import Lib.Tree Lib.GraphE Model.Eecc Proofs.EeccP Proofs.EeccGenP Proofs.EeccSmallP.
+From GV Require Import Lib.Tree Lib.GraphE Model.Eecc Proofs.EeccP Proofs.EeccGenP Proofs.EeccFloatP Proofs.EeccSmallP.
 Import ListNotations.
 
 (* the property, at full strength (all simple graphs, all m0 >= 2, all schedules) *)
@@ -74,6 +74,13 @@ Theorem C09_max_cliques_complete :
   forall g K, max_clique g K -> exists K', In K' (max_cliques g) /\ same_set K' K.
 Proof. exact max_cliques_complete. Qed.
 Print Assumptions C09_max_cliques_complete.
+
+(* GENERAL: the model's zero test (no shared edge, or at most two vertices) is exactly the code's float
+   comparison `r[c] == 0` under the binary64 rounding model (a rounded sum of positive terms is positive). *)
+Theorem C09_score_zero_is_float_zero :
+  forall C c, score_zero C c = QArith_base.Qeq_bool (score C c) (QArith_base.Qmake BinNums.Z0 BinNums.xH).
+Proof. exact score_zero_is_float_zero. Qed.
+Print Assumptions C09_score_zero_is_float_zero.
 
 (* GENERAL: whatever the schedule, the run is one of the outcomes enumerated by [eecc_all]
    (which branches over every tied candidate in every round). *)
